@@ -15,6 +15,8 @@ import Hy.Drv.Reconnect
 import Hy.Drv.QuicInitial
 import Hy.Drv.Brutal
 import Hy.Drv.Gecko
+import Hy.Drv.PortUnion
+import Hy.Drv.Hop
 
 open Hy.Drv
 
@@ -51,4 +53,6 @@ def main (args : List String) : IO UInt32 := do
   | ["sniff"] => loopPure stdin stdout QuicInitial.step; return 0
   | ["brutal"] => loopState stdin stdout Brutal.step Brutal.init; return 0
   | ["gecko"] => loopState stdin stdout Gecko.step Gecko.init; return 0
+  | ["portunion"] => loopPure stdin stdout PortUnion.step; return 0
+  | ["hop"] => loopState stdin stdout Hop.step Hop.init; return 0
   | _ => IO.eprintln "usage: hydrv <component>"; return 2
